@@ -80,21 +80,29 @@ def make_iter(spec: typing.Any, r1: int, r2: typing.Optional[int], divisors: typ
 
 
 def make_iter_exact(spec: typing.Any, bases: typing.List[typing.List[int]]):
-    """Exact expanded-set equality with the base chosen among concrete sets (choice)."""
+    """
+    Exact expanded-set equality on concrete base offset sets.  ONE type object is queried with every base in sequence
+    (in the order selected by the choice variable), so that state kept between queries is exposed; the list contains
+    look-alike bases (equal min, max and residues mod 32, different sets).
+    """
 
-    def concrete(bi: int) -> typing.Any:
+    def concrete(order: int) -> typing.Any:
         import pydsdl
 
-        base = bases[bi]
         t = T.build(spec)
-        want = L.field_offsets(spec, set(base))
-        got = list(t.iterate_fields_with_offsets(pydsdl.BitLengthSet(base)))
-        if len(got) != len(want):
-            return "field count"
-        for i, ((f, off), w) in enumerate(zip(got, want)):
-            if {x for x in off} != w:
-                return "field %d (%s) with base %s: offsets %s, want %s" % (i, f, base, sorted(off), sorted(w))
-        # default base
+        seq = list(bases)
+        if order == 1:
+            seq.reverse()
+        elif order == 2:
+            seq = seq[1::2] + seq[::2]
+        for base in seq:
+            want = L.field_offsets(spec, set(base))
+            got = list(t.iterate_fields_with_offsets(pydsdl.BitLengthSet(base)))
+            if len(got) != len(want):
+                return "field count"
+            for i, ((f, off), w) in enumerate(zip(got, want)):
+                if {x for x in off} != w:
+                    return "field %d (%s) with base %s (query order %d): offsets %s, want %s" % (i, f, base, order, sorted(off), sorted(w))
         got0 = list(t.iterate_fields_with_offsets())
         want0 = L.field_offsets(spec, {0})
         for (f, off), w in zip(got0, want0):
@@ -103,7 +111,7 @@ def make_iter_exact(spec: typing.Any, bases: typing.List[typing.List[int]]):
         return True
 
     def h(bi: int) -> typing.Any:
-        a = pick(bi, 0, len(bases) - 1)
+        a = pick(bi, 0, 2)
         if a is None:
             return None
         return textio.native(concrete, a)
@@ -318,6 +326,48 @@ def make_attrs(spec: typing.Any):
     return h
 
 
+LOOKALIKES = [["struct", [["varr", "u32", 2]]], ["struct", [["varr", "u64", 1]]], ["union", ["u64", ["struct", []]]],
+              ["struct", [["varr", "u16", 4]]], ["struct", [["varr", "u8", 8]]], ["struct", [["varr", "u32", 1], ["varr", "u32", 1]]]]
+
+
+def make_attrs_sequence():
+    """
+    T._bit_length_ / T._extent_ of several dependencies whose bit length sets are look-alikes (equal min, max, residues
+    mod 32) evaluated in ONE definition, in a choice order: each must be the type's own set.
+    """
+    import itertools as _it
+
+    perms = list(_it.permutations(range(len(LOOKALIKES)), 3))
+
+    def concrete(pi: int) -> typing.Any:
+        idx = perms[pi]
+        deps = []
+        lines = []
+        for k, i in enumerate(idx):
+            _t, fd = T.to_definitions(["struct", [LOOKALIKES[i]]], prefix="L%d_" % k)
+            deps += [textio.MemDefinition(n, (1, 0), txt) for n, txt in fd]
+            lines.append("@capture ns.L%d_1.1.0._bit_length_" % k)
+            lines.append("@capture ns.L%d_1.1.0._extent_" % k)
+        _, cap = textio.read_text("\n".join(lines) + "\n@sealed\n", lookup=deps, full_name="ns.Root")
+        for k, i in enumerate(idx):
+            got = _as_int_set(cap.values[2 * k])
+            want = L.enumerate_set(LOOKALIKES[i])
+            if got != want:
+                return "%s._bit_length_ (evaluated as number %d of %s) is %s, want %s" % (
+                    T.spec_str(LOOKALIKES[i]), k, [T.spec_str(LOOKALIKES[j]) for j in idx], sorted(got or []), sorted(want))
+            if cap.values[2 * k + 1].native_value != L.extent(LOOKALIKES[i], {}):
+                return "_extent_ of %s" % T.spec_str(LOOKALIKES[i])
+        return True
+
+    def h(pi: int) -> typing.Any:
+        a = pick(pi, 0, len(perms) - 1)
+        if a is None:
+            return None
+        return textio.native(concrete, a)
+
+    return h
+
+
 # ------------------------------------------------------------------------------------------------------------------
 
 
@@ -338,7 +388,7 @@ def conditions(tier: str, seed: int) -> typing.List[Cond]:
     cat = [s for s in T.catalogue(tier, seed) if not isinstance(s, str)]
     shapes = SHAPES + [s for s in cat if s not in SHAPES]
     rnd_shapes = T.random_shapes(seed + 5, 24 if thorough else 8)
-    bases = [[0], [1], [7], [8], [13], [0, 4, 8], [1, 16], [3, 5, 64]]
+    bases = [[0], [1], [7], [8], [13], [0, 4, 8], [1, 16], [3, 5, 64], [0, 64], [0, 32, 64], [8, 72], [8, 40, 72], [16, 48, 80, 112], [16, 112]]
     iter2_shapes = rnd.sample(shapes + rnd_shapes, 4)
     def heavy(sp: typing.Any) -> bool:
         txt = repr(sp)
@@ -365,8 +415,8 @@ def conditions(tier: str, seed: int) -> typing.List[Cond]:
                             assumptions=["base offset {8*q1 + %d, 8*q2 + %d}, q1, q2 >= 0 unbounded" % (r1, r2)],
                             witness={"q1": 5, "q2": 1}, budget=180.0 if thorough else 60.0, need_exhaust=False))
         out.append(Cond(PROP, "c08.iter-exact", make_iter_exact, {"spec": spec, "bases": bases}, {"bi": int}, kind="choice",
-                        assumptions=["base offset set one of %s; exact expanded offsets" % bases],
-                        witness={"bi": 5}, budget=300.0, need_exhaust=True))
+                        assumptions=["one type object queried with each of the bases %s in 3 orders; exact expanded offsets" % bases],
+                        witness={"bi": 0}, budget=300.0, need_exhaust=True))
     elems = ["u3", "u8", ["struct", ["u3", "u8"]], ["delim", ["struct", ["u8"]], 16], ["union", ["u8", "u16"]],
              ["varr", "u4", 2], ["struct", [["varr", "bool", 3]]]]
     for e in elems:
@@ -395,6 +445,9 @@ def conditions(tier: str, seed: int) -> typing.List[Cond]:
                             kind="choice", assumptions=["service whose two sections have %d fields each; _offset_ captured "
                                                         "at one choice position of each section, and at all positions" % n],
                             witness={"i": 1, "j": 1}, budget=300.0, need_exhaust=True))
+    out.append(Cond(PROP, "c08.attrs-sequence", make_attrs_sequence, {}, {"pi": int}, kind="choice",
+                    assumptions=["every ordered triple of 6 types with look-alike bit length sets, _bit_length_ / _extent_ of "
+                                 "each evaluated in one definition"], witness={"pi": 0}, budget=300.0, need_exhaust=True))
     for spec in textable:
         out.append(Cond(PROP, "c08.attrs", make_attrs, {"spec": spec}, {"dummy": int}, kind="choice",
                         assumptions=["T._bit_length_ / T._extent_ of a dependency"], witness={"dummy": 0}, budget=120.0,
